@@ -645,6 +645,39 @@ def _as_load(t):
     return c
 
 
+def _self_state_writes(fn, me):
+    """Every store INTO the instance in a method (nested lambdas/defs included): rebinding `self.x = ..`, subscript and
+    augmented stores `self.x[k] = v`, `self.x += ..`, deletions, and mutating method calls on `self.x` / `self.x[k]`."""
+    def field_of(e):
+        cur = e
+        while isinstance(cur, (ast.Subscript, ast.Attribute)):
+            if isinstance(cur, ast.Attribute) and isinstance(cur.value, ast.Name) and cur.value.id == me:
+                return cur.attr
+            cur = cur.value
+        return None
+    out = []
+    for n in ast.walk(fn):
+        if isinstance(n, (ast.Assign, ast.AugAssign, ast.AnnAssign, ast.Delete)):
+            targets = n.targets if isinstance(n, (ast.Assign, ast.Delete)) else [n.target]
+            flat = []
+            for t in targets:
+                flat.extend(t.elts if isinstance(t, (ast.Tuple, ast.List)) else [t])
+            for t in flat:
+                if isinstance(t, (ast.Attribute, ast.Subscript)):
+                    f = field_of(t)
+                    if f is not None:
+                        how = {ast.Assign: 'store', ast.AugAssign: 'augmented store', ast.AnnAssign: 'store', ast.Delete: 'delete'}[type(n)]
+                        out.append((n, how if isinstance(t, ast.Attribute) else 'subscript ' + how, f))
+        elif isinstance(n, ast.Call) and isinstance(n.func, ast.Attribute) and n.func.attr in SET_MUTATORS:
+            f = field_of(n.func.value)
+            if f is not None:
+                out.append((n, 'mutating call .%s()' % n.func.attr, f))
+        elif isinstance(n, ast.Call) and isinstance(n.func, ast.Name) and n.func.id == 'setattr' and n.args \
+                and isinstance(n.args[0], ast.Name) and n.args[0].id == me:
+            out.append((n, 'setattr', short(n.args[1]) if len(n.args) > 1 else '?'))
+    return out
+
+
 def d5_consumers(ctx, idx, st):
     r = ctx.rule('D5.WMW', 'no site of the package mutates the usage sets or the tree of a (cached) expression', floor=14)
     with r:
@@ -665,12 +698,15 @@ def d5_consumers(ctx, idx, st):
             if name == '__init__' or not fi.params or fi.is_static:
                 continue
             me = fi.params[0]
-            bad = [n for n in walk_own(fi.node) if isinstance(n, (ast.Assign, ast.AugAssign, ast.Delete)) and any(
-                isinstance(t, ast.Attribute) and isinstance(t.value, ast.Name) and t.value.id == me and t.attr in fields
-                for t in (n.targets if isinstance(n, (ast.Assign, ast.Delete)) else [n.target]))]
-            for n in bad:
-                r.violation('MathExpression.%s: field write' % name, '`%s` rewrites a field of a parsed (and cached) expression '
-                            'outside __init__' % short(n), lib.loc(fi, n))
+            for n, how, attr in _self_state_writes(fi.node, me):
+                if fi.qualname in (getattr(idx, 'unreviewed', None) or []):
+                    # the write sits in the (un-inlinable) helper itself, which is analysed right here: it is reviewed
+                    idx.unreviewed = [q for q in idx.unreviewed if q != fi.qualname]
+                r.violation('MathExpression.%s: write to self.%s' % (name, attr), '`%s` (%s) writes into the state of a parsed expression '
+                            'outside __init__; the expression object lives in the process-wide parser cache, so whatever is stored '
+                            'there by one parse/evaluation is seen by every later evaluation of the same formula (its outcome then '
+                            'depends on history, e.g. on the scope of an earlier call)' % (short(n), how), lib.loc(fi, n),
+                            expected='no store into self.<field> outside __init__', found=short(n))
         r.ok('MathExpression: field writes', 'only in __init__ (%s)' % ', '.join(sorted(fields)), init.loc)
         # stores to .X_used anywhere else
         for fi in idx.package_funcs():
@@ -972,14 +1008,21 @@ MUTANTS = [
     # D5
     Mutant('consumer-accumulates-into-cached-set', MH, "vars_used = set().union(*[p.variables_used for p in parsed_expressions])",
            "vars_used = parsed_expressions[0].variables_used if parsed_expressions else set()\n        for p in parsed_expressions:\n            vars_used.update(p.variables_used)", 'D5'),
-    Mutant('validator-discards-from-reported-set', MH, "    used_not_permitted = sorted([f for f in used_funcs if f not in permitted_functions])",
-           "    used_funcs.discard('')\n    used_not_permitted = sorted([f for f in used_funcs if f not in permitted_functions])", 'D5'),
     Mutant('sampler-edits-dependency-set', SAMPLING, "            self.config['depends'] = list(parsed.variables_used)",
            "            deps = parsed.variables_used\n            deps.discard('pi')\n            self.config['depends'] = list(deps)", 'D5'),
     Mutant('integral-unions-in-place', INTEGRAL, "used_funcs = lower_used.functions_used.union(upper_used.functions_used, expression_used.functions_used)",
            "used_funcs = expression_used.functions_used\n        used_funcs |= lower_used.functions_used\n        used_funcs |= upper_used.functions_used", 'D5'),
     Mutant('eval-prunes-suffixes', EXPR, "        # metadata_dict['max_array_dim_used'] is updated by eval_array\n",
            "        self.suffixes_used.discard('%')\n", 'D5'),
+    Mutant('number-literal-memoised-on-the-expression', EXPR,
+           "        actions = {\n            'number': lambda parse_result: self.eval_number(parse_result, suffixes),",
+           "        if not hasattr(self, 'number_values'):\n            self.number_values = {}\n\n"
+           "        def number_value(parse_result):\n            literal = tuple(parse_result)\n"
+           "            if literal not in self.number_values:\n"
+           "                self.number_values[literal] = self.eval_number(parse_result, suffixes)\n"
+           "            return self.number_values[literal]\n\n"
+           "        actions = {\n            'number': number_value,", 'D5',
+           note='seeded C03c: the memo key ignores the suffix table of the call; 2k evaluated with k=1000 then k=1024 still gives 2000'),
     # D6
     Mutant('implicit-multiplication-before-parentheses', EXPR, _PRODUCT,
            "product = parallel + ZeroOrMore(((Literal('*') | Literal('/'))(\"op\") + parallel) | parentheses)", 'D6'),
